@@ -80,19 +80,20 @@ OBLIGATIONS = [
     _ob('valid_997', 'h_delims', 'quick', 2400, doc='997', ns=2, ne=3, nc=2, nl=3),
     _ob('valid_999', 'h_delims', 'thorough', 2400, doc='999'),
     _ob('valid_834', 'h_delims', 'thorough', 3600, doc='834_lui_id', ns=2, ne=3, nc=2, nl=3),
-    _ob('valid_997_all_delims', 'h_delims', 'thorough', 7200, doc='997', ns=4, ne=5, nc=4, nl=5),
+    _ob('valid_997_all_delims', 'h_delims', 'thorough', 7200, doc='997', ns=4, ne=5, nc=4, nl=2),
 ]
 for m in ('trailing_separator', 'bad_count', 'too_many_components', 'retag', 'delete'):
     OBLIGATIONS.append(_ob('faulty_ris_%s' % m, 'h_delims', 'quick' if m in ('trailing_separator', 'bad_count', 'too_many_components') else 'thorough', 3600,
                            doc='repeat_init_segment', mut=m, ns=1, ne=2, nc=2, nl=2, pos=[3, 7, 11, 15]))
     OBLIGATIONS.append(_ob('faulty_997_%s' % m, 'h_delims', 'thorough', 3600, doc='997', mut=m, ns=2, ne=2, nc=2, nl=2, pos=[1, 4, 6, 9]))
     OBLIGATIONS.append(_ob('faulty_997_%s_everywhere' % m, 'h_delims', 'thorough', 3600, doc='997', mut=m, ns=2, ne=2, nc=2, nl=2))
-    OBLIGATIONS.append(_ob('faulty_834_%s' % m, 'h_delims', 'thorough', 7200, doc='834_lui_id', mut=m, ns=2, ne=2, nc=2, nl=2))
+    if m in ('trailing_separator', 'bad_count', 'too_many_components'):
+        OBLIGATIONS.append(_ob('faulty_834_%s' % m, 'h_delims', 'thorough', 7200, doc='834_lui_id', mut=m, ns=1, ne=2, nc=2, nl=2, pos=[3, 8, 13, 18]))
 
 LEVEL = 'other'
 EXPLANATION = __doc__
 BOUNDS = ('quick: the 12-segment 997 document valid (2x3x2 delimiter triples x 3 line-break conventions) and the 19-segment repeat_init_segment document (acknowledgement generated) with three kinds of single fault at four positions (five kinds at every position in thorough) '
-          '(2x2x2 triples x 2 conventions, including a control character as element separator); thorough: 999, 834, all 4x5x4 triples and 5 conventions.')
+          '(2x2x2 triples x 2 conventions, including a control character as element separator); thorough: 999, 834, all 4x5x4 triples.')
 OUTSIDE = ('documents other than 997 / 999 / 834; delimiter characters outside the tables (arbitrary symbolic delimiters are covered for the text layer by C01); HTML and XML output '
            '(delimiters are legitimately shown there).')
 ASSUMPTIONS = [
